@@ -4,8 +4,10 @@ import (
 	"fmt"
 	"testing"
 
+	"github.com/nspcc-dev/neo-go/pkg/config"
 	"github.com/nspcc-dev/neo-go/pkg/core/mempool"
 	"github.com/nspcc-dev/neo-go/pkg/core/transaction"
+	"github.com/nspcc-dev/neo-go/pkg/vm/opcode"
 	"github.com/nspcc-dev/neo-go/verifharness/vlib/ev"
 	"github.com/nspcc-dev/neo-go/verifharness/vlib/vchain"
 )
@@ -74,6 +76,75 @@ func agedConflicts(t *testing.T, run *ev.Run) {
 			}
 			if p.AddBlock() == nil {
 				run.Violation("producer-rejected-own-block", id, p.Rejected.Error(), nil)
+				break
+			}
+		}
+		p.Close()
+	}
+	// the edge of the window: a conflict record in block i counts up to and
+	// including chain height i+MaxTraceableBlocks-1; the named transaction is
+	// offered at every height from i to that edge and must never get in (a twin
+	// nobody names gets in as soon as its validity window opens)
+	mtbs := []uint32{6, 9}
+	if ev.Tier() == "thorough" {
+		mtbs = []uint32{4, 6, 7, 9, 12, 16, 25}
+	}
+	for mi, mtb := range mtbs {
+		base := fmt.Sprintf("conflict-window-edge/mtb%d", mtb)
+		if !run.Want(base) {
+			continue
+		}
+		cfg := func(b *config.Blockchain) {
+			vchain.AllForks(b)
+			b.MaxTraceableBlocks = mtb
+			b.MaxValidUntilBlockIncrement = max(mtb/2, 2)
+		}
+		p := vchain.NewProducer(t, vchain.ProducerConfig{Proto: cfg, Users: 3, Stream: 78000 + uint64(mi), TolerateReject: true})
+		u := p.Users[0]
+		mk := func(vub uint32, attrs ...transaction.Attribute) *transaction.Transaction {
+			tx := transaction.New([]byte{byte(opcode.PUSH1)}, 100_0000)
+			tx.Nonce = uint32(p.R.Uint32())
+			tx.ValidUntilBlock = vub
+			tx.NetworkFee = 2_0000_0000
+			tx.Attributes = attrs
+			tx.Signers = []transaction.Signer{{Account: u.Hash(), Scopes: transaction.CalledByEntry}}
+			if err := u.S.SignTx(p.BC.GetConfig().Magic, tx); err != nil {
+				t.Fatal(err)
+			}
+			return tx
+		}
+		for range 2 + mi {
+			p.AddBlock()
+		}
+		i := p.Height() + 1
+		victim, twin := mk(i+mtb+1), mk(i+mtb+1)
+		k := mk(i, transaction.Attribute{Type: transaction.ConflictsT, Value: &transaction.Conflicts{Hash: victim.Hash()}})
+		if p.AddBlock(k) == nil {
+			run.Violation("producer-rejected-own-block", base, p.Rejected.Error(), nil)
+			p.Close()
+			continue
+		}
+		run.Case(base, true)
+		for p.Height() <= i+mtb-1 {
+			h := p.Height()
+			wit := map[string]any{"max_traceable_blocks": mtb, "conflict_at": i, "height": h, "valid_until": victim.ValidUntilBlock, "tx": fmt.Sprintf("%x", victim.Bytes())}
+			if err := admit(p, victim); err == nil {
+				run.Violation("invalid-transaction-admitted:invalid:named-by-on-chain-conflict-of-its-signer-at-the-edge-of-the-traceable-window", fmt.Sprintf("%s/height%d", base, h),
+					fmt.Sprintf("height %d: pooled although named by the transaction of its signer in block %d, which is traceable up to height %d (MaxTraceableBlocks %d)", h, i, i+mtb-1, mtb), wit)
+				break
+			}
+			run.Obs("history_dependent_verdicts", 1)
+			if h == i+mtb-1 {
+				run.Obs("conflict_window_edges_probed", 1)
+			}
+			if err := admit(p, twin); err == nil {
+				run.Obs("history_dependent_verdicts", 1)
+			} else if h+p.BC.GetMaxValidUntilBlockIncrement() >= twin.ValidUntilBlock {
+				run.Violation("valid-transaction-rejected:valid:unnamed-twin-of-conflicted-transaction", fmt.Sprintf("%s/height%d", base, h), err.Error(), wit)
+				break
+			}
+			if p.AddBlock() == nil {
+				run.Violation("producer-rejected-own-block", base, p.Rejected.Error(), nil)
 				break
 			}
 		}
